@@ -290,6 +290,116 @@ func c20rGen() (string, error) {
 	}
 	b.WriteString("/-- every expression of redact.go that tests something against privateKeyJSONKey -/\n")
 	b.WriteString("def keyUses : List String := [" + strings.Join(ss, ", ") + "]\n")
+	// the callers of the hole redactors, statement by statement (a test of the raw bytes in front of the call,
+	// a dropped copy of the slice, a `continue` … all change the text)
+	b.WriteString("/-- top-level statements of the two functions that hand holes to the redactors -/\n")
+	b.WriteString("def callerBodies : List (String × List String) := [\n")
+	for i, fn := range []string{"redactedExtends", "redactedFilters"} {
+		f := findFunc(red, "", fn)
+		if f == nil {
+			return "", fmt.Errorf("%s not found in %s", fn, redSrc)
+		}
+		var sts []string
+		for _, st := range f.Body.List {
+			sts = append(sts, q(c20rPrint(st)))
+		}
+		sep := ","
+		if i == 1 {
+			sep = ""
+		}
+		fmt.Fprintf(&b, "  (%s, [%s])%s\n", q(fn), strings.Join(sts, ",\n    "), sep)
+	}
+	b.WriteString("]\n")
+	// redactJSONValue: every store into a container (index assignment, copy), by type-switch clause, with the
+	// container written; and what those containers are (every assignment to their names)
+	wf := findFunc(red, "", "redactJSONValue")
+	if wf == nil {
+		return "", fmt.Errorf("redactJSONValue not found in %s", redSrc)
+	}
+	type store struct{ clause, base, stmt string }
+	var stores []store
+	bases := map[string]bool{}
+	var walkStmts func(list []ast.Stmt, clause string)
+	var walkStmt func(st ast.Stmt, clause string)
+	walkStmt = func(st ast.Stmt, clause string) {
+		switch x := st.(type) {
+		case *ast.AssignStmt:
+			for _, l := range x.Lhs {
+				if ix, ok := l.(*ast.IndexExpr); ok {
+					base := c20rPrint(ix.X)
+					stores = append(stores, store{clause, base, c20rPrint(x)})
+					bases[base] = true
+				}
+			}
+		case *ast.ExprStmt:
+			if ce, ok := x.X.(*ast.CallExpr); ok && c20rPrint(ce.Fun) == "copy" && len(ce.Args) == 2 {
+				base := c20rPrint(ce.Args[0])
+				stores = append(stores, store{clause, base, c20rPrint(x)})
+				bases[base] = true
+			}
+		case *ast.IfStmt:
+			if x.Init != nil {
+				walkStmt(x.Init, clause)
+			}
+			walkStmts(x.Body.List, clause)
+			if x.Else != nil {
+				walkStmt(x.Else, clause)
+			}
+		case *ast.BlockStmt:
+			walkStmts(x.List, clause)
+		case *ast.ForStmt:
+			walkStmts(x.Body.List, clause)
+		case *ast.RangeStmt:
+			walkStmts(x.Body.List, clause)
+		case *ast.TypeSwitchStmt:
+			for _, cl := range x.Body.List {
+				cc := cl.(*ast.CaseClause)
+				name := "default"
+				if len(cc.List) > 0 {
+					var ns []string
+					for _, e := range cc.List {
+						ns = append(ns, c20rPrint(e))
+					}
+					name = strings.Join(ns, ",")
+				}
+				walkStmts(cc.Body, name)
+			}
+		case *ast.SwitchStmt:
+			for _, cl := range x.Body.List {
+				walkStmts(cl.(*ast.CaseClause).Body, clause)
+			}
+		}
+	}
+	walkStmts = func(list []ast.Stmt, clause string) {
+		for _, st := range list {
+			walkStmt(st, clause)
+		}
+	}
+	walkStmts(wf.Body.List, "-")
+	var defs []string
+	ast.Inspect(wf.Body, func(n ast.Node) bool {
+		if as, ok := n.(*ast.AssignStmt); ok && len(as.Lhs) == len(as.Rhs) {
+			for i, l := range as.Lhs {
+				if id, ok := l.(*ast.Ident); ok && bases[id.Name] {
+					defs = append(defs, id.Name+" = "+c20rPrint(as.Rhs[i]))
+				}
+			}
+		}
+		return true
+	})
+	// names bound by the function itself that are NOT allocations: parameters and type-switch / range bindings
+	ss = nil
+	for _, st := range stores {
+		ss = append(ss, "("+q(st.clause)+", "+q(st.base)+", "+q(st.stmt)+")")
+	}
+	b.WriteString("/-- redactJSONValue: every store into a container: (type-switch clause, container written, statement) -/\n")
+	b.WriteString("def walkerStores : List (String × String × String) := [" + strings.Join(ss, ",\n  ") + "]\n")
+	ss = nil
+	for _, d := range defs {
+		ss = append(ss, q(d))
+	}
+	b.WriteString("/-- redactJSONValue: every assignment to a name that is written as a container -/\n")
+	b.WriteString("def walkerContainerDefs : List String := [" + strings.Join(ss, ", ") + "]\n")
 	b.WriteString(footer("RawRedact"))
 	return b.String(), nil
 }
